@@ -37,7 +37,10 @@ mod executor {
     }
 }
 
+extern crate alloc;
 mod async_event;
+mod diatomic;
+mod dwscen;
 mod aescen;
 mod slotscen;
 mod seqops;
